@@ -1379,7 +1379,7 @@ def guard_rule(ctx, crate, b, label):
     helper_guards = {}
     for bb, tcall in b.calls():
         hp = callee_path(tcall)
-        hb = crate.body(hp) if hp and hp.startswith('truc_runtime::') and hp != FN else None
+        hb = crate.lookup(hp) if hp and hp.startswith('truc_runtime::') and hp != FN else None
         if hb is None or b.blocks[bb]['cleanup']:
             continue
         targs = callee_ty_args(tcall)
